@@ -83,6 +83,7 @@ func scenC04(w *vsim.World, spec *vsim.Spec) {
 	untrashStarted := map[string]int{}
 	deleteStarted := map[string]int{}         // DELETE requests ever started, per hash
 	prevStepAt := map[string]time.Time{}      // task -> time of its previous filesystem step
+	longWaitForFlock := map[string]bool{}     // task -> it got a flock a whole TTL after its previous step (the open)
 	stalledRenameAt := map[string]time.Time{} // hash -> when a writer that had been in flight for >= TTL renamed its temp file into place
 	lastCopyWrite := map[string]time.Time{}   // request task id -> time of the latest data-write step of a block write it performed
 	taskStart := map[string]time.Time{}       // request task id (up to the first '.') -> time of its first filesystem step
@@ -151,6 +152,10 @@ func scenC04(w *vsim.World, spec *vsim.Spec) {
 					}
 					if age < ttl && stalledWriter[base] {
 						w.ViolationSig("c04/block-younger-than-ttl-trashed", "writer-stalled-a-whole-ttl-renames-under-trash", "volume %s: %s was trashed at age %s < TTL %s: a PUT of this block that had been in flight for longer than the TTL (stalled between its existence check and its rename) replaced the old copy while Trash() held the flock on it and had already judged it old; Trash() then renamed the fresh copy (last step: %+v)", vs.name, base[:8], age, ttl, last)
+						return
+					}
+					if age < ttl && last != nil && longWaitForFlock[last.task] {
+						w.ViolationSig("c04/block-younger-than-ttl-trashed", "trash-resumed-after-a-whole-ttl-holds-the-lock-of-a-replaced-file", "volume %s: %s was trashed at age %s < TTL %s: the trashing request had opened the block, then waited for its flock for a whole TTL; meanwhile a writer replaced the file, so the lock it finally got was on the unlinked old file, a TOUCH/PUT of the new file was not excluded, and the request renamed the freshly touched file (last step: %+v)", vs.name, base[:8], age, ttl, last)
 						return
 					}
 					if age < ttl {
@@ -281,6 +286,10 @@ func scenC04(w *vsim.World, spec *vsim.Spec) {
 			gapBefore = time.Since(t)
 		}
 		prevStepAt[s.Task] = time.Now()
+		if s.Op == "flock" && gapBefore >= ttl-smallJumps {
+			longWaitForFlock[s.Task] = true
+			w.Probe("flock-obtained-after-a-whole-ttl")
+		}
 		if (s.Op == "rename" || s.Op == "chtimes") && strings.Contains(root, ">") && gapBefore >= ttl-smallJumps {
 			for _, pth := range []string{s.Path, s.Path2} {
 				base := filepath.Base(pth)
